@@ -40,10 +40,15 @@ NestedChoices == IF Small THEN {<<>>, << <<"n", "Udash">> >>} ELSE {<<>>} \cup {
 \* case: per file its tns, root declarations and nested declarations
 TnsChoices == {t \in [1..NFiles -> UriIds] : \A i, j \in 1..NFiles : i # j => t[i] # t[j]}
 FewTns == {t \in TnsChoices : t[1] \in {"Uv1", "Umsg"} /\ \E i \in 1..NFiles : BaseOf(t[i]) = "typ"}
+\* one namespace spread over two files with a file of another namespace between them (chain f1 -> f2 -> f3): the
+\* components of f1 and f3 belong to ONE module although they are not read back to back (seed C10-f)
+SpreadTns == {t \in [1..3 -> UriIds] : t[1] = t[3] /\ t[1] # t[2] /\ t[1] \in {"Uv1", "Umsg"} /\ t[2] \in {"Uv2", "Udot", "Umsg"}}
 Space == CASE Shape = "two" -> {[tns |-> t, decl |-> d, nested |-> n, rev |-> FALSE] :
                                    t \in TnsChoices, d \in [1..2 -> DeclChoices], n \in [1..2 -> NestedChoices]}
            [] Shape = "chain" -> {[tns |-> t, decl |-> d, nested |-> [i \in 1..3 |-> <<>>], rev |-> FALSE] :
                                    t \in FewTns, d \in [1..3 -> {<<>>, << <<"a", "Uv1">> >>, << <<"a", "Uv2">> >>}]}
+                                 \cup {[tns |-> t, decl |-> d, nested |-> [i \in 1..3 |-> <<>>], rev |-> FALSE] :
+                                   t \in SpreadTns, d \in [1..3 -> {<<>>, << <<"a", "Uv2">> >>}]}
            [] Shape = "star" -> {[tns |-> t, decl |-> d, nested |-> [i \in 1..3 |-> <<>>], rev |-> r] :
                                    t \in FewTns, d \in [1..3 -> {<<>>, << <<"a", "Udot">> >>}], r \in BOOLEAN}
            [] OTHER -> {[tns |-> t, decl |-> [i \in 1..4 |-> <<>>], nested |-> [i \in 1..4 |-> <<>>], rev |-> FALSE] :
